@@ -177,7 +177,7 @@ H_up(s, e) ==
 H_disc_new(s, e) ==
   Chk(s, << <<e.g = s.gen /\ s.ph = "up" /\ s.disc = "none", "disc_new.phase">>,
             <<ToSet(e.given) = s.ann, "G2.responder is given other interfaces than announced">>,
-            <<ToSet(e.given) \subseteq Listening(s) \/ s.stopDone \/ s.ishReq # {},
+            <<ToSet(e.given) \subseteq (Listening(s) \cup s.crashInj) \/ s.stopDone \/ s.ishReq # {},
               "G2.responder created for interfaces that do not listen">> >>,
       {[s EXCEPT !.disc = "open"]})
 
@@ -198,7 +198,7 @@ H_disc_close(s, e) ==
   {IF e.g = s.gen THEN [s EXCEPT !.disc = "closed"] ELSE [s EXCEPT !.oldDisc = @ \ {e.g}]}
 
 H_stopped(s, e) ==
-  Chk(s, << <<e.g = s.gen /\ (s.ph = "up" \/ (s.ph = "ready" /\ (s.shutAny \/ RestartWanted(s)))), "stopped.phase">>,
+  Chk(s, << <<e.g = s.gen /\ (s.ph \in {"up", "noif"} \/ (s.ph = "ready" /\ (s.shutAny \/ RestartWanted(s)))), "stopped.phase">>,
             <<ThreadsGone(s) /\ Listening(s) = {}, "G5.wind-down begins while an interface thread lives">>,
             <<\A i \in Ifs : s.ifs[i] # "crashclosed", "G3.a failed serving loop is not reported">> >>,
       {[s EXCEPT !.ph = "stopped"]})
@@ -255,16 +255,17 @@ H_req_e(s, e) ==
             ELSE {s1}
        ELSE {[s EXCEPT !.shutOpen = @ \ {e.r}, !.shutDone = TRUE, !.stopDone = sd]}
 
-(* a signal: the handler is a shutdown request made by the thread that runs run() *)
+(* a signal is a shutdown request; when the handler returns the shutdown has been REQUESTED (the handler may *)
+(* carry it out itself or hand it to another thread): only S2 speaks about it                                  *)
 H_sig_b(s, e) == {[s EXCEPT !.shutOpen = @ \cup {"sig"}, !.shutAny = TRUE, !.reqGen = @ \cup {<<"sig", s.gen, s.ph>>}]}
-H_sig_e(s, e) == {[s EXCEPT !.shutOpen = @ \ {"sig"}, !.shutDone = TRUE, !.stopDone = s.stopDone \/ Within(s, "sig")]}
+H_sig_e(s, e) == {[s EXCEPT !.shutOpen = @ \ {"sig"}]}
 
 H_crash(s, e) == {[s EXCEPT !.crashInj = @ \cup {e.i}]}
 
 Pairs(q) == {<<q[k][1], q[k][2]>> : k \in DOMAIN q}
 H_quiet(s, e) ==
   IF s.aborted THEN {s} ELSE
-  Chk(s, << <<~e.deadlock /\ ~e.livelock /\ e.reqalive = <<>>, "E1.a request never returns">>,
+  Chk(s, << <<~e.livelock /\ e.reqalive = <<>>, "E1.a request never returns">>,
             <<s.openR = {} /\ s.shutOpen = {}, "E1.a request never returns">>,
             <<s.run = "exc" \/ ~s.shutAny \/ (e.run = "ret" /\ s.run = "ret"), "S2.shutdown requested but run() did not return">>,
             <<~(s.pend /\ ~s.shutAny /\ s.run # "exc"), "R2.accepted restart request never led to a new generation">>,
